@@ -5,6 +5,7 @@ import (
 	"os"
 	"path/filepath"
 	"strings"
+	"sync"
 
 	"verif/drv"
 	"verif/kit"
@@ -88,34 +89,105 @@ func (b *ufsBuilder) dir(links []pbLink) []byte {
 	return b.add(refcar.CodecDagPB, pbNode(links, ufsData(1, nil, false)))
 }
 
+// rawLeaf is a raw-codec block (the "degenerate file" of extractElement).
+func (b *ufsBuilder) rawLeaf(content []byte) []byte { return b.add(refcar.CodecRaw, content) }
+
+// raw0 is a dag-pb node whose UnixFS type is Raw (0).
+func (b *ufsBuilder) raw0(content []byte) []byte {
+	return b.add(refcar.CodecDagPB, pbNode(nil, ufsData(0, content, true)))
+}
+
+// plain is a dag-pb node without a Data field (not UnixFS): go-unixfsnode reifies it as a
+// "pathed" node that lists its links like a directory.
+func (b *ufsBuilder) plain(links []pbLink) []byte {
+	return b.add(refcar.CodecDagPB, pbNode(links, nil))
+}
+
+// shard is a hand-encoded one-level HAMT shard (UnixFS type 5, murmur3, fanout 256, all bitfield
+// bits set): every link is a value link named "00"+name. go-unixfsnode's iterator walks the
+// links in order and strips the two-character prefix without looking at hash placement (lookup by
+// name, i.e. --path, would need the real placement and is not combined with shards).
+func (b *ufsBuilder) shard(links []pbLink) []byte {
+	ls := make([]pbLink, len(links))
+	for i, l := range links {
+		l.Name = "00" + l.Name
+		ls[i] = l
+	}
+	bits := make([]byte, 32)
+	for i := range bits {
+		bits[i] = 0xff
+	}
+	d := pbUint(1, 5)
+	d = append(d, pbBytes(2, bits)...)
+	d = append(d, pbUint(5, 0x22)...)
+	d = append(d, pbUint(6, 256)...)
+	return b.add(refcar.CodecDagPB, pbNode(ls, d))
+}
+
+// shard2 is a two-level HAMT: a root shard with one child-shard link ("00") that holds the values.
+func (b *ufsBuilder) shard2(links []pbLink) []byte {
+	child := b.shard(links)
+	bits := make([]byte, 32)
+	bits[31] = 1
+	d := pbUint(1, 5)
+	d = append(d, pbBytes(2, bits)...)
+	d = append(d, pbUint(5, 0x22)...)
+	d = append(d, pbUint(6, 256)...)
+	return b.add(refcar.CodecDagPB, pbNode([]pbLink{{Name: "00", Cid: child, Size: 1}}, d))
+}
+
 // ---------------------------------------------------------------- the check
 
 type C17Entry struct {
 	Name string `json:"name"`
-	Kind string `json:"kind"` // file, dir, or sym:<target class>
+	Kind string `json:"kind"` // file, dir, hdir, rawfile, raw0 or sym:<target class>
 }
 
 type C17Case struct {
 	E1     C17Entry  `json:"e1"`
 	E2     *C17Entry `json:"e2,omitempty"`
-	Place  string    `json:"place"`  // same-dir, two-roots, parent-child, root-file
-	OutDir string    `json:"outdir"` // empty, file-a, dir-a, absent
+	Place  string    `json:"place"`  // same-dir, two-roots, parent-child, root-file, dir-root+file-root, file-root+dir-root, in-subdir, same-dir-hamt, same-dir-hamt2, same-dir-plainpb
+	OutDir string    `json:"outdir"` // empty, file-a, dir-a, absent, sym-a-outside, sym-a-sentinel, sym-unknown-sentinel, sym-a-fresh, sym-d-outside
 	Stdin  bool      `json:"stdin,omitempty"`
+	Path   string    `json:"path,omitempty"`   // value of --path ("" = option not passed)
+	OutArg string    `json:"outarg,omitempty"` // form of the output argument: "" (relative "out"), abs, cwd-omitted, dot, trailing-slash, dotdot, nested, symlinked, dash
+	Drop   string    `json:"drop,omitempty"`   // block left out of the archive: e1, e2, root
 }
 
 var c17Names = []string{"a", "..", ".", "a/b", "../x", "/abs", "", "unknown", "a/../../x"}
 var c17Kinds = []string{"file", "dir", "sym:../sentinel", "sym:ABS/sentinel", "sym:..", "sym:.", "sym:a", "sym:../outside", "sym:ABS/outside"}
 
+// extension alphabets (crossed with the old ones by a reduced matrix, see genC17)
+var c17NamesExt = []string{"ABS/x", "ABS/outside/new", "../../c17-up", "../../x"}
+var c17KindsExt = []string{"sym:../fresh", "sym:ABS/outside/fresh", "sym:../freshdir", "sym:../../sentinel", "sym:../../outside", "rawfile", "raw0", "hdir"}
+
+var c17OutArgs = []string{"abs", "cwd-omitted", "dot", "trailing-slash", "dotdot", "nested", "symlinked", "dash"}
+var c17SymOutDirs = []string{"sym-a-outside", "sym-a-sentinel", "sym-unknown-sentinel", "sym-a-fresh"}
+
+// c17RootMu serialises the cases that probe shared names at the filesystem root.
+var c17RootMu sync.Mutex
+
+func c17Dirish(e C17Entry) bool { return e.Kind == "dir" || e.Kind == "hdir" }
+
+func (e C17Entry) content() []byte { return []byte("EVIL-CONTENT-" + e.Name) }
+
 func (e C17Entry) build(b *ufsBuilder, sandbox string, child *pbLink) []byte {
 	switch {
 	case e.Kind == "file":
-		return b.file([]byte("EVIL-CONTENT-" + e.Name))
-	case e.Kind == "dir":
+		return b.file(e.content())
+	case e.Kind == "rawfile":
+		return b.rawLeaf(e.content())
+	case e.Kind == "raw0":
+		return b.raw0(e.content())
+	case e.Kind == "dir" || e.Kind == "hdir":
 		var links []pbLink
 		if child != nil {
 			links = append(links, *child)
 		} else {
 			links = append(links, pbLink{Name: "inner", Cid: b.file([]byte("inner")), Size: 5})
+		}
+		if e.Kind == "hdir" {
+			return b.shard(links)
 		}
 		return b.dir(links)
 	case strings.HasPrefix(e.Kind, "sym:"):
@@ -126,89 +198,346 @@ func (e C17Entry) build(b *ufsBuilder, sandbox string, child *pbLink) []byte {
 	panic(e.Kind)
 }
 
-func runC17(c any, x *kit.Ctx) {
-	cs := c.(C17Case)
-	sandbox := filepath.Join(x.Dir, "c17sandbox")
-	os.RemoveAll(sandbox)
-	if err := os.MkdirAll(filepath.Join(sandbox, "outside"), 0o755); err != nil {
+// c17Plant puts the files an escaping write would hit next to (never inside) an output directory.
+func c17Plant(dir string) {
+	if err := os.MkdirAll(filepath.Join(dir, "outside"), 0o755); err != nil {
 		panic(err)
 	}
-	defer os.RemoveAll(sandbox)
-	os.WriteFile(filepath.Join(sandbox, "sentinel"), []byte("SENTINEL"), 0o644)
-	os.WriteFile(filepath.Join(sandbox, "outside", "keep"), []byte("KEEP"), 0o644)
-	os.WriteFile(filepath.Join(sandbox, "x"), []byte("X-ORIGINAL"), 0o644)
-	out := filepath.Join(sandbox, "out")
-	switch cs.OutDir {
-	case "empty":
-		os.MkdirAll(out, 0o755)
-	case "file-a":
-		os.MkdirAll(out, 0o755)
-		os.WriteFile(filepath.Join(out, "a"), []byte("old a"), 0o644)
-	case "dir-a":
-		os.MkdirAll(filepath.Join(out, "a"), 0o755)
-	case "absent":
+	os.WriteFile(filepath.Join(dir, "sentinel"), []byte("SENTINEL"), 0o644)
+	os.WriteFile(filepath.Join(dir, "outside", "keep"), []byte("KEEP"), 0o644)
+	os.WriteFile(filepath.Join(dir, "x"), []byte("X-ORIGINAL"), 0o644)
+}
+
+func runC17(c any, x *kit.Ctx) {
+	cs := c.(C17Case)
+	// top/                 snapshot root: sentinel, outside/keep, x, up-sentinel, the archive
+	// top/c17sandbox/      working directory of the tool: sentinel, outside/keep, x
+	// top/c17sandbox/out   the output directory (nested: out/sub, symlinked: outlink -> realout)
+	top := filepath.Join(x.Dir, "c17top")
+	sandbox := filepath.Join(top, "c17sandbox")
+	os.RemoveAll(top)
+	defer os.RemoveAll(top)
+	c17Plant(top)
+	os.WriteFile(filepath.Join(top, "up-sentinel"), []byte("UP"), 0o644)
+	c17Plant(sandbox)
+	target := filepath.Join(sandbox, "out")
+	switch cs.OutArg {
+	case "nested":
+		target = filepath.Join(sandbox, "out", "sub")
+		c17Plant(filepath.Join(sandbox, "out"))
+	case "symlinked":
+		target = filepath.Join(sandbox, "realout")
+		if err := os.Symlink("realout", filepath.Join(sandbox, "outlink")); err != nil {
+			panic(err)
+		}
 	}
+	if cs.OutDir != "absent" {
+		if err := os.MkdirAll(target, 0o755); err != nil {
+			panic(err)
+		}
+	}
+	switch cs.OutDir {
+	case "empty", "absent":
+	case "file-a":
+		os.WriteFile(filepath.Join(target, "a"), []byte("old a"), 0o644)
+	case "dir-a":
+		os.MkdirAll(filepath.Join(target, "a"), 0o755)
+	case "sym-a-outside": // left behind by an earlier extraction: a link to a directory outside
+		os.Symlink("../outside", filepath.Join(target, "a"))
+	case "sym-a-sentinel":
+		os.Symlink("../sentinel", filepath.Join(target, "a"))
+	case "sym-unknown-sentinel":
+		os.Symlink("../sentinel", filepath.Join(target, "unknown"))
+	case "sym-a-fresh": // dangling: the target does not exist (yet)
+		os.Symlink("../fresh", filepath.Join(target, "a"))
+	case "sym-d-outside":
+		os.Symlink("../outside", filepath.Join(target, "d"))
+	default:
+		panic(cs.OutDir)
+	}
+
 	// build the archive
 	b := &ufsBuilder{}
+	// The entry name "/abs" is realised as a root-level name that is private to this worker, so
+	// that "taken literally it lands at the filesystem root" is observable without a race between
+	// the workers (the filesystem root is outside every snapshot).
+	absName := "/c17abs-" + filepath.Base(filepath.Dir(x.Dir)) + "-" + filepath.Base(x.Dir)
+	subst := func(n string) string {
+		if n == "/abs" {
+			return absName
+		}
+		return strings.Replace(n, "ABS", sandbox, 1)
+	}
+	var e1Cid, e2Cid []byte
+	l1 := func(child *pbLink) pbLink {
+		e1Cid = cs.E1.build(b, sandbox, child)
+		return pbLink{Name: subst(cs.E1.Name), Cid: e1Cid, Size: 1}
+	}
+	l2 := func(size uint64) pbLink {
+		e2Cid = cs.E2.build(b, sandbox, nil)
+		return pbLink{Name: subst(cs.E2.Name), Cid: e2Cid, Size: size}
+	}
+	both := func() []pbLink {
+		links := []pbLink{l1(nil)}
+		if cs.E2 != nil {
+			links = append(links, l2(1))
+		}
+		return links
+	}
 	var roots [][]byte
 	switch cs.Place {
 	case "same-dir":
-		links := []pbLink{{Name: cs.E1.Name, Cid: cs.E1.build(b, sandbox, nil), Size: 1}}
-		if cs.E2 != nil {
-			links = append(links, pbLink{Name: cs.E2.Name, Cid: cs.E2.build(b, sandbox, nil), Size: 1})
-		}
-		roots = [][]byte{b.dir(links)}
+		roots = [][]byte{b.dir(both())}
+	case "same-dir-hamt":
+		roots = [][]byte{b.shard(both())}
+	case "same-dir-hamt2":
+		roots = [][]byte{b.shard2(both())}
+	case "same-dir-plainpb":
+		roots = [][]byte{b.plain(both())}
+	case "in-subdir":
+		roots = [][]byte{b.dir([]pbLink{{Name: "d", Cid: b.dir(both()), Size: 1}})}
 	case "two-roots":
-		r1 := b.dir([]pbLink{{Name: cs.E1.Name, Cid: cs.E1.build(b, sandbox, nil), Size: 1}})
-		roots = [][]byte{r1}
+		roots = [][]byte{b.dir([]pbLink{l1(nil)})}
 		if cs.E2 != nil {
 			// a distinct second root even when the entries are equal
-			r2 := b.dir([]pbLink{{Name: cs.E2.Name, Cid: cs.E2.build(b, sandbox, nil), Size: 2}})
-			roots = append(roots, r2)
+			roots = append(roots, b.dir([]pbLink{l2(2)}))
 		}
 	case "parent-child":
 		var child *pbLink
 		if cs.E2 != nil {
-			child = &pbLink{Name: cs.E2.Name, Cid: cs.E2.build(b, sandbox, nil), Size: 1}
+			l := l2(1)
+			child = &l
 		}
-		roots = [][]byte{b.dir([]pbLink{{Name: cs.E1.Name, Cid: cs.E1.build(b, sandbox, child), Size: 1}})}
+		roots = [][]byte{b.dir([]pbLink{l1(child)})}
 	case "root-file":
 		// roots that are not directories: a symlink/file root, then a second root
-		roots = [][]byte{cs.E1.build(b, sandbox, nil)}
+		roots = [][]byte{l1(nil).Cid}
 		if cs.E2 != nil {
-			roots = append(roots, cs.E2.build(b, sandbox, nil))
+			roots = append(roots, l2(1).Cid)
 		}
+	case "dir-root+file-root":
+		roots = [][]byte{b.dir([]pbLink{l1(nil)}), l2(1).Cid}
+	case "file-root+dir-root":
+		roots = [][]byte{l1(nil).Cid, b.dir([]pbLink{l2(2)})}
+	default:
+		panic(cs.Place)
+	}
+	var drop []byte
+	switch cs.Drop {
+	case "e1":
+		drop = e1Cid
+	case "e2":
+		drop = e2Cid
+	case "root":
+		drop = roots[0]
 	}
 	// blocks in reverse creation order puts parents first (as car create does); both work for a file source
 	var blks []refcar.Block
 	for i := len(b.blocks) - 1; i >= 0; i-- {
+		if drop != nil && string(b.blocks[i].Cid) == string(drop) {
+			continue
+		}
 		blks = append(blks, b.blocks[i])
 	}
 	archive := refcar.EncodeV1(roots, false, blks)
-	apath := filepath.Join(x.Dir, "c17.car")
+	apath := filepath.Join(top, "c17.car")
 	os.WriteFile(apath, archive, 0o644)
-	defer os.Remove(apath)
 
-	before := drv.Snapshot(sandbox, "out")
+	// the command line
+	args := []string{"extract"}
+	if !cs.Stdin {
+		args = append(args, "-f", apath)
+	}
+	if cs.Path != "" {
+		args = append(args, "--path", cs.Path)
+	}
+	cwd := sandbox
+	skip := []string{}
+	if rel, err := filepath.Rel(top, target); err == nil {
+		skip = append(skip, rel)
+	}
+	switch cs.OutArg {
+	case "":
+		args = append(args, "out")
+	case "abs":
+		args = append(args, target)
+	case "cwd-omitted":
+		cwd = target
+	case "dot":
+		cwd = target
+		args = append(args, ".")
+	case "trailing-slash":
+		args = append(args, "out/")
+	case "dotdot":
+		args = append(args, "out/../out")
+	case "nested":
+		args = append(args, "out/sub")
+	case "symlinked":
+		args = append(args, "outlink")
+	case "dash": // extraction to stdout: there is no output directory at all
+		args = append(args, "-")
+		skip = nil
+	default:
+		panic(cs.OutArg)
+	}
+	if cs.OutDir == "absent" {
+		cwd = sandbox
+	}
+
+	// root-level paths an escaping write could create: the private absolute name always; with "-"
+	// (no output root: a naive join yields "/<name>") also the entry names themselves, under a lock
+	// because those names are shared between the workers
+	rootProbe := []string{absName}
+	if cs.OutArg == "dash" {
+		c17RootMu.Lock()
+		defer c17RootMu.Unlock()
+		for _, n := range []string{subst(cs.E1.Name), func() string {
+			if cs.E2 != nil {
+				return subst(cs.E2.Name)
+			}
+			return ""
+		}(), "unknown", "inner", "d"} {
+			if first := strings.Split(strings.TrimLeft(n, "/"), "/")[0]; first != "" && first != "." && first != ".." {
+				rootProbe = append(rootProbe, "/"+first)
+			}
+		}
+	}
+	rootStat := func(p string) string {
+		fi, err := os.Lstat(p)
+		if err != nil {
+			return ""
+		}
+		if fi.IsDir() {
+			return "dir" // a pre-existing system directory (e.g. /dev for an ABS name): only its kind is compared
+		}
+		return fmt.Sprintf("%v|%d|%v", fi.Mode(), fi.Size(), fi.ModTime().UnixNano())
+	}
+	rootBefore := map[string]string{}
+	for _, p := range rootProbe {
+		rootBefore[p] = rootStat(p)
+	}
+	before := drv.Snapshot(top, skip...)
+	inBefore := drv.Snapshot(target)
 	var r drv.RunResult
 	if cs.Stdin {
-		r = drv.Car(sandbox, archive, "extract", "out")
+		r = drv.Car(cwd, archive, args...)
 	} else {
-		r = drv.Car(sandbox, nil, "extract", "-f", apath, "out")
+		r = drv.Car(cwd, nil, args...)
 	}
 	x.Eval(1)
 	x.Transition(len(blks))
-	after := drv.Snapshot(sandbox, "out")
+	after := drv.Snapshot(top, skip...)
+	inAfter := drv.Snapshot(target)
 	// "out" itself may be replaced by something that is not a directory inside the sandbox: still inside
 	if d := drv.DiffSnapshots(before, after); len(d) > 0 {
 		x.Fail("c17:escape:"+c17Class(cs), "car extract changed files outside the output directory: %v\n(exit %d, stderr %s)", d, r.Exit, clipS(string(r.Stderr), 400))
 	}
+	// an absolute entry name taken literally lands at the filesystem root, outside the snapshot
+	for _, p := range rootProbe {
+		if now := rootStat(p); now != "" && now != rootBefore[p] {
+			if rootBefore[p] == "" {
+				os.RemoveAll(p)
+			}
+			// a root-level symlink may have been written through: remove what carries our marker
+			for _, q := range []string{"/sentinel", "/outside", "/fresh", "/freshdir", "/x"} {
+				if data, err := os.ReadFile(q); err == nil && strings.HasPrefix(string(data), "EVIL-CONTENT-") {
+					os.Remove(q)
+				}
+			}
+			x.Fail("c17:escape-root:"+c17Class(cs), "car extract created or modified %s at the filesystem root (exit %d, stderr %s)", p, r.Exit, clipS(string(r.Stderr), 400))
+			break
+		}
+	}
 	// a symlink placed in out may point anywhere, that is allowed; but nothing may have been
 	// written THROUGH it: covered by the snapshot of everything outside out.
-	x.State(fmt.Sprintf("%+v", cs))
-	x.Outcome(fmt.Sprintf("exit=%d", r.Exit))
-	if cs.E2 != nil {
-		x.Nontrivial(fmt.Sprintf("%+v|%+v|%s|%s", cs.E1, *cs.E2, cs.Place, cs.OutDir))
+
+	// positive controls: the benign single-entry archives must really be extracted (a tool or an
+	// encoder that never extracts anything would make the containment oracle vacuous)
+	c17Control(cs, x, r, target, sandbox)
+
+	wrote := len(drv.DiffSnapshots(inBefore, inAfter)) > 0 || (cs.OutArg == "dash" && len(r.Stdout) > 0)
+	guard := strings.Contains(string(r.Stderr), "redirect through symlinks") || strings.Contains(string(r.Stderr), "refusing to write")
+	x.State(c17Key(cs))
+	oc := fmt.Sprintf("exit=%d", r.Exit)
+	if wrote {
+		oc += " wrote-inside"
+	}
+	if guard {
+		oc += " refused-by-guard"
+	}
+	x.Outcome(oc)
+	if wrote {
+		x.Count("extractions_that_wrote_inside", 1)
+	}
+	if guard {
+		x.Count("extractions_refused_by_symlink_guard", 1)
+	}
+	if cs.E2 != nil && (wrote || guard) {
+		x.Nontrivial(c17Key(cs))
+	}
+}
+
+// c17Control checks the expected result of the benign single-entry cases {a, kind} extracted
+// into an empty output directory.
+func c17Control(cs C17Case, x *kit.Ctx, r drv.RunResult, target, sandbox string) {
+	if cs.E2 != nil || cs.E1.Name != "a" || cs.OutDir != "empty" || cs.Drop != "" {
+		return
+	}
+	rel := ""
+	switch cs.Place {
+	case "same-dir", "two-roots", "same-dir-hamt", "same-dir-hamt2", "same-dir-plainpb":
+		rel = "a"
+		if cs.Path != "" && !((cs.Path == "a" || cs.Path == "/a/") && (cs.Place == "same-dir" || cs.Place == "two-roots" || cs.Place == "same-dir-plainpb")) {
+			return
+		}
+	case "in-subdir":
+		rel = "d/a"
+		if cs.Path != "" && cs.Path != "d" && cs.Path != "d/a" {
+			return
+		}
+	case "root-file":
+		if cs.Path != "" {
+			return
+		}
+		switch cs.E1.Kind {
+		case "file", "raw0":
+			rel = "unknown"
+		case "dir", "hdir":
+			rel = "."
+		default:
+			return // symlink roots and raw-codec roots extract nothing
+		}
+	default:
+		return
+	}
+	sig := "c17:control:" + cs.Place + ":" + cs.E1.Kind
+	if cs.OutArg == "dash" {
+		switch cs.E1.Kind {
+		case "file", "raw0", "rawfile":
+			if string(r.Stdout) != string(cs.E1.content()) {
+				x.Fail(sig, "benign control: extraction to stdout printed %q, want %q (exit %d, stderr %s)", clipS(string(r.Stdout), 100), cs.E1.content(), r.Exit, clipS(string(r.Stderr), 300))
+			}
+		}
+		return
+	}
+	p := filepath.Join(target, rel)
+	switch {
+	case cs.E1.Kind == "file" || cs.E1.Kind == "raw0" || cs.E1.Kind == "rawfile":
+		got, err := os.ReadFile(p)
+		if err != nil || string(got) != string(cs.E1.content()) || r.Exit != 0 {
+			x.Fail(sig, "benign control: %s not extracted as expected: content %q err %v (exit %d, stderr %s)", p, got, err, r.Exit, clipS(string(r.Stderr), 300))
+		}
+	case c17Dirish(cs.E1):
+		got, err := os.ReadFile(filepath.Join(p, "inner"))
+		if err != nil || string(got) != "inner" || r.Exit != 0 {
+			x.Fail(sig, "benign control: %s/inner not extracted as expected: content %q err %v (exit %d, stderr %s)", p, got, err, r.Exit, clipS(string(r.Stderr), 300))
+		}
+	case strings.HasPrefix(cs.E1.Kind, "sym:"):
+		want := strings.Replace(strings.TrimPrefix(cs.E1.Kind, "sym:"), "ABS", sandbox, 1)
+		got, err := os.Readlink(p)
+		if err != nil || got != want || r.Exit != 0 {
+			x.Fail("c17:control:"+cs.Place+":symlink", "benign control: symlink %s not created as expected: target %q err %v, want %q (exit %d, stderr %s)", p, got, err, want, r.Exit, clipS(string(r.Stderr), 300))
+		}
 	}
 }
 
@@ -226,43 +555,345 @@ func c17Class(cs C17Case) string {
 	return s
 }
 
-func genC17(tier string, emit func(any)) {
-	names := c17Names
-	kinds := c17Kinds
-	outdirs := []string{"empty", "file-a", "dir-a", "absent"}
-	if tier != "thorough" {
-		names = []string{"a", "..", "a/b", "../x", "/abs", ""}
-		kinds = []string{"file", "dir", "sym:../sentinel", "sym:ABS/sentinel", "sym:..", "sym:../outside"}
-		outdirs = []string{"empty", "file-a"}
+func c17Key(cs C17Case) string {
+	e2 := "-"
+	if cs.E2 != nil {
+		e2 = fmt.Sprintf("%q/%s", cs.E2.Name, cs.E2.Kind)
 	}
-	var entries []C17Entry
+	return fmt.Sprintf("%q/%s|%s|%s|%s|%v|%s|%s|%s", cs.E1.Name, cs.E1.Kind, e2, cs.Place, cs.OutDir, cs.Stdin, cs.Path, cs.OutArg, cs.Drop)
+}
+
+func c17Cross(names, kinds []string) []C17Entry {
+	var out []C17Entry
 	for _, n := range names {
 		for _, k := range kinds {
-			entries = append(entries, C17Entry{n, k})
+			out = append(out, C17Entry{n, k})
 		}
 	}
-	for _, od := range outdirs {
-		for _, e1 := range entries {
-			for _, place := range []string{"same-dir", "root-file"} {
-				emit(C17Case{E1: e1, Place: place, OutDir: od})
+	return out
+}
+
+func c17Union(sets ...[]C17Entry) []C17Entry {
+	seen := map[C17Entry]bool{}
+	var out []C17Entry
+	for _, s := range sets {
+		for _, e := range s {
+			if !seen[e] {
+				seen[e] = true
+				out = append(out, e)
 			}
-			for _, e2 := range entries {
+		}
+	}
+	return out
+}
+
+// c17Sets are the entry sets of one tier. core is crossed completely (as before); the extension
+// alphabets enter through the reduced sets X (extension entries), P (partners) and their subsets.
+type c17Sets struct {
+	names, kinds []string   // core alphabets
+	core         []C17Entry // names x kinds
+	x            []C17Entry // extension entries: new names x few kinds + few names x new kinds
+	pcore        []C17Entry // small core subset
+	psmall       []C17Entry // pcore + {a} x new kinds
+	pmin         []C17Entry // smallest partner set (quick-tier option matrices)
+	p            []C17Entry // pcore + x
+	outdirs      []string
+	symOutdirs   []string
+	bareKinds    []string // kinds of a non-directory root next to a directory root
+	outArgs      []string
+	pathsOK      []string // --path values that pathSegments accepts
+	pathsBad     []string // --path values that pathSegments must reject
+}
+
+func c17SetsFor(tier string) c17Sets {
+	var s c17Sets
+	if tier == "thorough" {
+		s.names, s.kinds = c17Names, c17Kinds
+		s.x = c17Union(c17Cross(c17NamesExt, []string{"file", "dir", "sym:../sentinel"}), c17Cross([]string{"a", "a/b", "unknown"}, c17KindsExt),
+			c17Cross([]string{"..", "../x", "a/../../x"}, []string{"rawfile", "raw0", "hdir"}))
+		s.pcore = c17Cross([]string{"a", "..", "a/b", "../x", "unknown"}, []string{"file", "dir", "sym:../sentinel", "sym:../outside"})
+		s.psmall = c17Union(s.pcore, c17Cross([]string{"a"}, c17KindsExt))
+		s.outdirs = []string{"empty", "file-a", "dir-a", "absent"}
+		s.symOutdirs = c17SymOutDirs
+		s.bareKinds = []string{"file", "dir", "raw0", "rawfile", "sym:../sentinel", "hdir"}
+		s.pathsOK = []string{"a", "/a/", "a/a", "a/unknown", "a/inner", "unknown"}
+		s.pathsBad = []string{"..", ".", "a/..", "a//b", "../a"}
+		s.pmin = s.pcore
+	} else {
+		s.names = []string{"a", "..", "a/b", "../x", "/abs", ""}
+		s.kinds = []string{"file", "dir", "sym:../sentinel", "sym:ABS/sentinel", "sym:..", "sym:../outside"}
+		s.x = c17Union(c17Cross([]string{"ABS/x", "../../c17-up"}, []string{"file", "sym:../sentinel"}), c17Cross([]string{"a"}, c17KindsExt),
+			c17Cross([]string{"../x"}, []string{"rawfile", "hdir"}))
+		s.pcore = c17Cross([]string{"a", "../x", "unknown"}, []string{"file", "dir", "sym:../sentinel"})
+		s.psmall = c17Union(s.pcore, c17Cross([]string{"a"}, []string{"sym:../fresh", "rawfile", "hdir"}))
+		s.outdirs = []string{"empty", "file-a"}
+		s.symOutdirs = []string{"sym-a-outside", "sym-unknown-sentinel"}
+		s.pmin = c17Cross([]string{"a", "../x"}, []string{"file", "dir", "sym:../sentinel"})
+		s.bareKinds = []string{"file", "dir", "raw0"}
+		s.pathsOK = []string{"a", "a/a"}
+		s.pathsBad = []string{"..", "a/.."}
+	}
+	s.core = c17Cross(s.names, s.kinds)
+	s.p = c17Union(s.pcore, s.x)
+	s.outArgs = c17OutArgs
+	return s
+}
+
+func genC17(tier string, emit func(any)) {
+	s := c17SetsFor(tier)
+	thorough := tier == "thorough"
+	seen := map[string]bool{}
+	n := 0
+	// em emits a case once; combinations that make no sense are dropped here.
+	em := func(cs C17Case) {
+		switch cs.Place {
+		case "parent-child":
+			if cs.E2 == nil || !c17Dirish(cs.E1) {
+				return
+			}
+		case "root-file": // names are irrelevant for non-directory roots
+			if cs.E2 != nil && (cs.E1.Name != "a" || cs.E2.Name != "a") {
+				return
+			}
+		case "dir-root+file-root":
+			if cs.E2 == nil || cs.E2.Name != "a" {
+				return
+			}
+		case "file-root+dir-root":
+			if cs.E2 == nil || cs.E1.Name != "a" {
+				return
+			}
+		}
+		if cs.OutDir == "absent" && cs.OutArg != "" {
+			return
+		}
+		if cs.Drop == "e2" && cs.E2 == nil {
+			return
+		}
+		k := c17Key(cs)
+		if seen[k] {
+			return
+		}
+		seen[k] = true
+		n++
+		emit(cs)
+	}
+	single := func(es []C17Entry, places []string, base C17Case) {
+		for _, e := range es {
+			for _, pl := range places {
+				cs := base
+				cs.E1, cs.E2, cs.Place = e, nil, pl
+				em(cs)
+			}
+		}
+	}
+	pairs := func(as, bs []C17Entry, places []string, base C17Case) {
+		for _, e1 := range as {
+			for _, e2 := range bs {
+				e2 := e2
+				for _, pl := range places {
+					cs := base
+					cs.E1, cs.E2, cs.Place = e1, &e2, pl
+					em(cs)
+				}
+			}
+		}
+	}
+	bare := func(kinds []string) []C17Entry { return c17Cross([]string{"a"}, kinds) }
+	dirPlaces := []string{"same-dir", "two-roots", "parent-child"}
+	all := c17Union(s.core, s.x)
+
+	// 0. positive controls first: benign {a, kind} alone, every placement, every output argument form
+	ctlKinds := append(append([]string{}, s.kinds...), c17KindsExt...)
+	ctlPlaces := []string{"same-dir", "root-file", "in-subdir", "same-dir-hamt", "same-dir-hamt2", "same-dir-plainpb"}
+	single(bare(ctlKinds), ctlPlaces, C17Case{OutDir: "empty"})
+	single(bare(ctlKinds), ctlPlaces, C17Case{OutDir: "empty", Stdin: true})
+	for _, oa := range s.outArgs {
+		single(bare([]string{"file", "dir", "sym:../sentinel", "rawfile", "hdir"}), ctlPlaces, C17Case{OutDir: "empty", OutArg: oa})
+	}
+	for _, p := range []string{"a", "/a/"} {
+		single(bare([]string{"file", "dir", "sym:../sentinel", "rawfile", "hdir"}), []string{"same-dir", "same-dir-plainpb"}, C17Case{OutDir: "empty", Path: p})
+	}
+	for _, p := range []string{"d", "d/a"} {
+		single(bare([]string{"file", "dir", "sym:../sentinel", "rawfile", "hdir"}), []string{"in-subdir"}, C17Case{OutDir: "empty", Path: p})
+	}
+
+	// 1. the core product (complete): every pair of core entries in the four original placements
+	for _, od := range s.outdirs {
+		if od == "absent" {
+			// the tool refuses a missing output directory before it writes anything (EvalSymlinks
+			// fails): reduced matrix
+			single(all, []string{"same-dir", "root-file"}, C17Case{OutDir: od})
+			pairs(s.psmall, s.psmall, append(dirPlaces, "root-file"), C17Case{OutDir: od})
+			continue
+		}
+		for _, e1 := range s.core {
+			for _, place := range []string{"same-dir", "root-file"} {
+				em(C17Case{E1: e1, Place: place, OutDir: od})
+			}
+			for _, e2 := range s.core {
 				e2 := e2
 				for _, place := range []string{"same-dir", "two-roots", "parent-child", "root-file"} {
-					if place == "parent-child" && e1.Kind != "dir" {
-						continue
-					}
-					if place == "root-file" && (e1.Name != names[0] || e2.Name != names[0]) {
-						continue // names are irrelevant for non-directory roots
-					}
-					emit(C17Case{E1: e1, E2: &e2, Place: place, OutDir: od})
-					if tier == "thorough" && od == "empty" && place != "root-file" {
-						emit(C17Case{E1: e1, E2: &e2, Place: place, OutDir: od, Stdin: true})
+					em(C17Case{E1: e1, E2: &e2, Place: place, OutDir: od})
+					if thorough && od == "empty" && place != "root-file" {
+						em(C17Case{E1: e1, E2: &e2, Place: place, OutDir: od, Stdin: true})
 					}
 				}
 			}
 		}
 	}
+
+	// 2. extension alphabets (names that are absolute sandbox paths or climb two levels; dangling
+	// and two-level symlink targets, raw leaves, UnixFS Raw nodes, sharded sub-directories):
+	// every pair with at least one extension entry and a partner from P
+	extOutdirs := []string{"empty"}
+	if thorough {
+		extOutdirs = []string{"empty", "dir-a"}
+	}
+	for _, od := range extOutdirs {
+		single(s.x, []string{"same-dir", "root-file"}, C17Case{OutDir: od})
+		if od != "empty" {
+			pairs(s.psmall, s.psmall, dirPlaces, C17Case{OutDir: od})
+			continue
+		}
+		pairs(s.x, s.p, dirPlaces, C17Case{OutDir: od})
+		pairs(s.p, s.x, dirPlaces, C17Case{OutDir: od})
+		pairs(bare(c17KindsExt), bare(append(append([]string{}, s.kinds...), c17KindsExt...)), []string{"root-file"}, C17Case{OutDir: od})
+		pairs(bare(s.kinds), bare(c17KindsExt), []string{"root-file"}, C17Case{OutDir: od})
+	}
+
+	// 3. new placements
+	// 3a. a directory root next to a bare (non-directory, or bare directory) root, both orders:
+	// the bare root is written to <out>/unknown without passing resolvePath
+	mixOutdirs := []string{"empty"}
+	if thorough {
+		mixOutdirs = []string{"empty", "file-a", "dir-a"}
+	}
+	for _, od := range mixOutdirs {
+		pairs(all, bare(s.bareKinds), []string{"dir-root+file-root"}, C17Case{OutDir: od})
+		pairs(bare(s.bareKinds), all, []string{"file-root+dir-root"}, C17Case{OutDir: od})
+	}
+	// 3b. both entries inside a sub-directory (relative targets scaled to the depth are in X)
+	single(all, []string{"in-subdir"}, C17Case{OutDir: "empty"})
+	deep := s.p
+	if !thorough {
+		deep = c17Union(s.psmall, c17Cross([]string{"a/b"}, []string{"file", "dir"}), c17Cross([]string{"a"}, []string{"sym:../../outside"}))
+	}
+	pairs(deep, deep, []string{"in-subdir"}, C17Case{OutDir: "empty"})
+	// 3c. sharded root directory (own iterator, strips a name prefix), one and two levels
+	single(all, []string{"same-dir-hamt", "same-dir-hamt2", "same-dir-plainpb"}, C17Case{OutDir: "empty"})
+	pairs(deep, deep, []string{"same-dir-hamt"}, C17Case{OutDir: "empty"})
+	if thorough {
+		pairs(s.psmall, s.psmall, []string{"same-dir-hamt2", "same-dir-plainpb"}, C17Case{OutDir: "empty"})
+	} else {
+		pairs(s.pmin, s.pmin, []string{"same-dir-hamt2", "same-dir-plainpb"}, C17Case{OutDir: "empty"})
+	}
+
+	// 4. output directories that already hold a symlink (left by an earlier extraction)
+	for _, od := range s.symOutdirs {
+		single(all, []string{"same-dir", "root-file", "same-dir-hamt"}, C17Case{OutDir: od})
+		pairs(s.psmall, s.psmall, append(dirPlaces, "root-file"), C17Case{OutDir: od})
+		pairs(s.psmall, bare(s.bareKinds), []string{"dir-root+file-root"}, C17Case{OutDir: od})
+		pairs(bare(s.bareKinds), s.psmall, []string{"file-root+dir-root"}, C17Case{OutDir: od})
+	}
+	single(all, []string{"in-subdir"}, C17Case{OutDir: "sym-d-outside"})
+	pairs(s.pmin, s.pmin, []string{"in-subdir"}, C17Case{OutDir: "sym-d-outside"})
+
+	// 5. options
+	// 5a. --path: rejected values never reach the extraction; accepted values are crossed with the
+	// pairs in which an entry carries the first segment's name
+	pathSet := c17Union(s.pcore, c17Cross([]string{"a"}, []string{"sym:../fresh", "rawfile", "hdir"}), c17Cross([]string{".."}, []string{"file", "dir", "sym:../sentinel"}))
+	for _, p := range append(append([]string{}, s.pathsBad...), s.pathsOK...) {
+		segs := strings.Split(strings.Trim(p, "/"), "/")
+		var hit, rest []C17Entry
+		for _, e := range pathSet {
+			if e.Name == segs[0] {
+				hit = append(hit, e)
+			} else {
+				rest = append(rest, e)
+			}
+		}
+		bad := false
+		for _, q := range s.pathsBad {
+			bad = bad || q == p
+		}
+		places := []string{"same-dir", "parent-child"}
+		if bad && !thorough {
+			places = []string{"same-dir"}
+		}
+		if len(segs) == 1 && !bad {
+			places = append([]string{}, dirPlaces...)
+			if thorough {
+				places = append(places, "same-dir-plainpb", "root-file")
+			}
+		}
+		base := C17Case{OutDir: "empty", Path: p}
+		single(pathSet, []string{"same-dir", "root-file", "same-dir-plainpb"}, base)
+		pairs(hit, pathSet, places, base)
+		pairs(rest, hit, places, base)
+		pairs(hit, bare(s.bareKinds), []string{"dir-root+file-root"}, base)
+		pairs(bare(s.bareKinds), hit, []string{"file-root+dir-root"}, base)
+		if !bad && (thorough || p == "a") {
+			base.OutDir = "sym-a-outside"
+			pairs(hit, pathSet, []string{"same-dir", "two-roots", "parent-child"}, base)
+			pairs(rest, hit, []string{"same-dir", "two-roots"}, base)
+		}
+	}
+	for _, p := range []string{"d", "d/a", "d/unknown"} {
+		pairs(s.pmin, s.pmin, []string{"in-subdir"}, C17Case{OutDir: "empty", Path: p})
+	}
+	// 5b. form of the output argument
+	for _, oa := range s.outArgs {
+		for _, od := range []string{"empty", "file-a"} {
+			base := C17Case{OutDir: od, OutArg: oa}
+			if thorough {
+				single(all, []string{"same-dir", "root-file"}, base)
+			} else {
+				single(s.pmin, []string{"same-dir", "root-file"}, base)
+			}
+			if od == "empty" {
+				pairs(s.pmin, s.pmin, append(dirPlaces, "root-file"), base)
+				pairs(s.pmin, bare(s.bareKinds), []string{"dir-root+file-root"}, base)
+			}
+		}
+	}
+	// 5c. missing blocks
+	for _, stdin := range []bool{false, true} {
+		ps := s.psmall
+		if stdin {
+			ps = s.pcore
+		}
+		if !thorough {
+			ps = s.pmin
+		}
+		for _, d := range []string{"e1", "e2"} {
+			base := C17Case{OutDir: "empty", Drop: d, Stdin: stdin}
+			if stdin && !thorough {
+				pairs(s.pmin, s.pmin, dirPlaces, base)
+				continue
+			}
+			pairs(ps, ps, dirPlaces, base)
+			pairs(s.pmin, s.pmin, []string{"in-subdir", "same-dir-hamt", "root-file"}, base)
+			pairs(s.pmin, bare(s.bareKinds), []string{"dir-root+file-root"}, base)
+		}
+		single(s.pcore, []string{"same-dir", "root-file"}, C17Case{OutDir: "empty", Drop: "root", Stdin: stdin})
+		single(s.pcore, []string{"same-dir"}, C17Case{OutDir: "empty", Drop: "e1", Stdin: stdin})
+	}
+	// 5d. stdin with non-directory roots and with pre-populated output directories
+	pairs(bare(s.kinds), bare(s.kinds), []string{"root-file"}, C17Case{OutDir: "empty", Stdin: true})
+	stdinOutdirs := []string{"file-a", "sym-a-outside"}
+	if thorough {
+		stdinOutdirs = []string{"file-a", "sym-a-outside", "sym-unknown-sentinel"}
+	}
+	for _, od := range stdinOutdirs {
+		sp := s.psmall
+		if !thorough {
+			sp = s.pmin
+		}
+		pairs(sp, sp, []string{"same-dir", "two-roots"}, C17Case{OutDir: od, Stdin: true})
+		pairs(s.pmin, bare(s.bareKinds), []string{"dir-root+file-root"}, C17Case{OutDir: od, Stdin: true})
+	}
+	_ = n
 }
 
 func init() {
@@ -272,14 +903,27 @@ func init() {
 		Run:    runC17,
 		Setup:  func(string) error { return drv.BuildCar() },
 		Decode: kit.DecodeAs[C17Case],
-		Rule: "every UnixFS archive with at most two hostile entries (deviation bound 2) drawn from names {a, .., ., a/b, ../x, /abs, empty, unknown, a/../../x} x kinds {file, directory, symlink to ../sentinel | absolute sentinel | .. | . | a | ../outside | absolute outside} in the placements {same directory, two roots, parent/child, non-directory roots}, " +
-			"built with an own dag-pb encoder (unsorted/duplicate names expressible), extracted by the REAL car binary into {empty, pre-populated with file a, with directory a, absent} output directories; oracle: recursive snapshot (names, types, contents, link targets) of everything outside the output directory is unchanged; non-trivial = archive with two hostile entries",
+		Rule: "every UnixFS archive with at most two hostile entries (deviation bound 2) built with an own dag-pb encoder (unsorted/duplicate names expressible) and extracted by the REAL car binary. " +
+			"CORE (complete product): names {a, .., ., a/b, ../x, /abs, empty, unknown, a/../../x} x kinds {file, directory, symlink to ../sentinel | absolute sentinel | .. | . | a | ../outside | absolute outside} in the placements {same directory, two roots, parent/child, non-directory roots} x output directory {empty, holding file a, holding directory a} (+ stdin source for the empty one); a missing output directory with a reduced matrix (the tool refuses it before writing). " +
+			"EXTENSIONS (explicit reduced matrices, all fully enumerated): names {absolute path into the sandbox, absolute path into the outside directory, ../../c17-up, ../../x} and kinds {dangling symlink ../fresh | absolute fresh | ../freshdir, two-level targets ../../sentinel | ../../outside, raw-codec leaf, UnixFS Raw node, sharded (HAMT) sub-directory} as set X, paired in both orders with the partner set P = {a, .., a/b, ../x, unknown} x {file, dir, ../sentinel, ../outside} + X; " +
+			"placements {directory root + bare root and reversed (the bare root lands on <out>/unknown), both entries inside a sub-directory, one-level and two-level hand-encoded HAMT root, non-UnixFS dag-pb root}; output directories that already hold a symlink {a->../outside, a->../sentinel, unknown->../sentinel, a->../fresh (dangling), d->../outside}; " +
+			"options: --path {accepted: a, /a/, a/a, a/unknown, a/inner, unknown, d, d/a, d/unknown; rejected: .., ., a/.., a//b, ../a} crossed with the pairs carrying the first segment's name; output argument form {relative, absolute, omitted (cwd), ., trailing slash, out/../out, nested out/sub with sentinels in out, symlink to the real directory, - (stdout)}; one block missing {entry 1, entry 2, root} from file and stdin; stdin with non-directory roots and pre-populated output directories. " +
+			"ORACLE: recursive snapshot (names, types, contents, link targets) of the sandbox's PARENT directory (sentinels at both levels, the archive itself) minus the output directory is unchanged; the name /abs is realised as a per-worker private root-level path that must not appear; with '-' the root-level names of the entries must not appear; " +
+			"positive controls: the benign archive {a, kind} alone must be extracted to the expected place in every placement/output form (no vacuous pass when nothing is ever extracted); non-trivial = archive with two hostile entries whose extraction wrote inside the output directory or was refused by a symlink guard",
 		Bound: func(tier string) map[string]any {
-			if tier == "thorough" {
-				return map[string]any{"hostile_entries": 2, "names": len(c17Names), "kinds": len(c17Kinds), "placements": 4, "outdirs": 4, "stdin": "for empty output directory"}
-			}
-			return map[string]any{"hostile_entries": 2, "names": 6, "kinds": 6, "placements": 4, "outdirs": 2}
+			s := c17SetsFor(tier)
+			return map[string]any{"hostile_entries": 2, "names": len(s.names), "kinds": len(s.kinds), "core_entries": len(s.core),
+				"extension_names": len(c17NamesExt), "extension_kinds": len(c17KindsExt), "extension_entries_X": len(s.x), "partners_P": len(s.p), "partners_small": len(s.psmall), "partners_core": len(s.pcore), "partners_min": len(s.pmin),
+				"placements": 10, "outdirs": len(s.outdirs), "symlink_outdirs": len(s.symOutdirs) + 1, "bare_root_kinds": len(s.bareKinds),
+				"outarg_forms": len(s.outArgs) + 1, "paths_accepted": len(s.pathsOK) + 3, "paths_rejected": len(s.pathsBad), "dropped_block": 3,
+				"stdin": "core pairs with empty output directory (thorough), controls, missing blocks, non-directory roots, pre-populated output directories"}
 		},
-		Assumptions: []string{"exit status of car extract is irrelevant to the property", "sharded (HAMT) directories are not generated by the own encoder"},
+		Assumptions: []string{
+			"exit status of car extract is irrelevant to the property (only the positive controls look at it)",
+			"the extension alphabets, new placements, symlink-holding output directories and options are crossed by the reduced matrices stated in the rule, not by the complete product",
+			"HAMT shards are hand-encoded without real hash placement (go-unixfsnode's iterator does not check it); --path lookups, which need the placement, are not combined with shards",
+			"writes at the filesystem root are observed only for the per-worker name standing for /abs and, with '-', for the first components of the entry names; everything else is observed up to the parent of the working directory",
+			"file modes and timestamps outside the output directory are not compared",
+		},
 	})
 }
